@@ -1,0 +1,53 @@
+//go:build verif
+
+// Contracts for package crypto, checked by /verif (govc). Comment-only.
+package crypto
+
+// ---------------------------------------------------------------------------------------------
+// C11: decoders of attacker-controlled blobs never index out of range. Only internal state
+// (keys) is constrained; the ciphertext / message bytes are arbitrary.
+//
+//@ package golang.org/x/crypto/blake2b
+//@ func New
+//@   modifies nothing
+//@   ensures 1 <= arg0 && arg0 <= 64 && len(arg1) <= 64 ==> result1 == nil && result0 != nil
+//@ package golang.org/x/crypto/nacl/box
+//@ func Open
+//@   modifies nothing
+//@ func Seal
+//@   modifies nothing
+//@ package crypto/aes
+//@ func NewCipher
+//@   modifies nothing
+//@   ensures result1 == nil ==> result0 != nil
+//@ package crypto/cipher
+//@ func NewGCM
+//@   modifies nothing
+//@   ensures result1 == nil ==> result0 != nil
+//@ func iface cipher.AEAD.Open
+//@   modifies nothing
+//@ func iface hash.Hash.Sum
+//@   modifies nothing
+//@ package github.com/anyproto/any-sync/util/crypto
+
+//@ func DecryptX25519
+//@   requires privKey != nil && pubKey != nil
+//@ func (*AESKey).DecryptReuse
+//@   requires k != nil && len(k.raw) >= 32
+//@ func (*AESKey).Decrypt
+//@   requires k != nil && len(k.raw) >= 32
+
+// key decoders: arbitrary bytes in, key or error out
+//@ func (*github.com/anyproto/any-sync/util/crypto/cryptoproto.Key).UnmarshalVT
+//@   modifies object arg0
+//@ package filippo.io/edwards25519
+//@ func *
+//@   modifies nothing
+//@ package encoding/base64
+//@ func *
+//@   modifies nothing
+//@ package github.com/anyproto/any-sync/util/crypto
+//@ func (*Ed25519PrivKey).Decrypt
+//@   requires k != nil
+//@ func (*Ed25519PubKey).Verify
+//@   requires k != nil
